@@ -142,8 +142,9 @@ for d in sorted(glob.glob(os.path.join(ROOT, "seeded", "*", ""))):
 
 with open(os.path.join(ROOT, "seeded", "README.md"), "w") as f:
     f.write("# Seeded breaking changes\n\nEach directory holds a change to sboehler/knut written by an independent sub-agent that saw only the text of one property: patch.diff, its demonstration, and meta.json (what it needs to manifest, how it was confirmed, which checks catch it, what had to be strengthened). None of these changes is committed to /repo. To re-run one: `bin/mutant.sh /verif/seeded/<id> <property ids>`; all: `bin/sweep.sh` (seeded/SWEEP.txt is its last output).\n\n")
-    n_after = sum(1 for r in rows if r[4] == "after strengthening")
-    f.write("%d changes kept; %d were caught by the checks as they stood when the change arrived, %d only after the checks were strengthened (see the note in each meta.json and DESIGN.md section 12).\n\n" % (len(rows), len(rows) - n_after, n_after))
+    n_none = sum(1 for r in rows if r[3] == "none")
+    n_after = sum(1 for r in rows if r[4] == "after strengthening" and r[3] != "none")
+    f.write("%d changes kept; %d were caught by the checks as they stood when the change arrived, %d only after the checks were strengthened, %d not at all (see the note in each meta.json and DESIGN.md section 12).\n\n" % (len(rows), len(rows) - n_after - n_none, n_after, n_none))
     f.write("| id | property | change | caught by | checks |\n|---|---|---|---|---|\n")
     for r in rows:
         f.write("| %s | %s | %s | %s | %s |\n" % r)
